@@ -37,6 +37,8 @@ def run(ctx, repo, tier):
     voro.dispatch_model(ctx, repo, "C04")
     voro.getter_forwarding(ctx, repo, "C04")
     voro.value_snapping(ctx, repo, "C04")
+    voro.one_construction(ctx, repo, "C04")
+    voro.pair_source(ctx, repo, "C04")
     # public getters of the 4D grid object reach the folded implementation with the stated defaults
     n_b, n_o, n_t = Poly.sym("n_b"), Poly.sym("n_o"), Poly.sym("n_t")
     hooks = GeoHooks(repo, n_b, n_o, n_t, bounds={"n_b": 4, "n_o": 4, "n_t": 2}, b_alg="cube4D", o_alg="ico")
